@@ -110,6 +110,9 @@ def generators(tier, seed):
     add("Rectangle(n=3,scalar)", lambda: fem.Rectangle(a=(0.0, 0.5), b=(1.0, 1.5), n=3), 1.0)
     for n in ((2, 2, 2), (3, 2, 2), (2, 3, 4)):
         add(f"Cube(n={n})", lambda n=n: fem.Cube(a=(0.2, 0.5, -0.3), b=(2.0, 1.5, 0.4), n=n), 1.8 * 0.7)
+    # integer lattices: merging with decimals=0 (rounding to whole numbers) is meaningful here
+    add("Rectangle(lattice 2x3)", lambda: fem.Rectangle(a=(1, 2), b=(3, 5), n=(3, 4)), 6.0)
+    add("Cube(lattice 2x1x2)", lambda: fem.Cube(a=(1, 2, 0), b=(3, 3, 2), n=(3, 2, 3)), 4.0)
     add("Grid(2d)", lambda: fem.Grid(np.array([0.0, 1.0, 3.0]), np.array([0.5, 0.7, 2.0])), 3.0 * 1.5)
     add("Grid(3d)", lambda: fem.Grid(np.array([0.0, 1.0, 3.0]), np.array([0.5, 2.0]), np.array([0.0, 0.3, 0.4])), 3.0 * 1.5 * 0.4)
     add("Grid(1d)", lambda: fem.Grid(np.array([0.0, 1.0, 3.0, 3.5])), 3.5)
@@ -236,8 +239,20 @@ def operations(mesh, tier):
         op("stack(self,self)+merge_cells", lambda m: fem.mesh.stack([m, m]).merge_duplicate_cells(), post="same-cells-set")
         op("disconnect", lambda m: m.disconnect(), post="disconnect")
         op("merge(decimals=2)", lambda m: m.merge_duplicate_points(decimals=2), post="merge:2")
+        if dim in (2, 3) and ct in LINEAR and np.abs(mesh.points - np.round(mesh.points)).max() < 1e-9:
+            # integer lattice + its copy rotated by 90 degrees about its lower corner (coordinates equal only up to
+            # round-off): merged at the rounding tolerance the caller asks for
+            for dec in (0, 1, None):
+                op(f"concatenate(rot90 copy)+merge(decimals={dec})", lambda m, dec=dec: fem.mesh.concatenate([m, _rot90(m)]).merge_duplicate_points(decimals=dec), lambda v, m: 2 * v, post=f"merge:{dec}:rot90" if dec is not None else "duplicates-expected")
+            op("container(rot90 copy, merge=True, decimals=0).stack", lambda m: fem.MeshContainer([m, _rot90(m)], merge=True, decimals=0).stack(), lambda v, m: 2 * v, post="merge:0:rot90")
         op("dual(calc_points)", lambda m: m.dual(points_per_cell=None, disconnect=True, calc_points=True), post="disconnect")
     return ops
+
+
+def _rot90(m):
+    c = np.zeros(3)
+    c[: m.dim] = m.points.min(0)
+    return m.rotate(90, axis=2, center=c[: m.dim] if m.dim == 2 else c)
 
 
 def _shifted_line(m):
@@ -334,6 +349,8 @@ def run(case):
                 if post and post.startswith("merge") and post != "merge:None":
                     dec = int(post.split(":")[1])
                     ntol = None if (dec < 6 or mtol is None) else max(mtol, 50 * 10.0 ** (-dec))  # rounded coordinates: the measure moves with them
+                    if post.endswith("rot90"):
+                        ntol = mtol  # lattice coordinates: rounding moves nothing but round-off
                 check_state(sub, new, newexp, unused=(post not in ("merge:2",)), base=nbase, mtol=ntol)
                 # operation-specific post-conditions
                 if post == "identity-cells":
@@ -348,6 +365,8 @@ def run(case):
                 elif post and post.startswith("merge"):
                     dec = post.split(":")[1]
                     src = fem.mesh.concatenate([mesh, mesh.translate(mesh.points[:, 0].max() - mesh.points[:, 0].min(), axis=0)]) if "concatenate" in label or "container" in label else mesh
+                    if post.endswith("rot90"):
+                        src = fem.mesh.concatenate([mesh, _rot90(mesh)])
                     tolm = 0.0 if dec == "None" else 0.5 * 10 ** (-int(dec)) * (1 + 1e-6)
                     if new.cells.shape == src.cells.shape:
                         dmax = np.abs(new.points[new.cells] - src.points[src.cells]).max()
